@@ -16,6 +16,13 @@ Correspondence streams
                        response_start, with write()/rename()/open()/getpid() of the cache writer interposed
                        (short writes, EINTR, ENOSPC, rename failure, process death before/after every call,
                        pid reuse) vs the Lean cache protocol (`run`)
+  names(h_deflate)     the names a cacheable response hands to open(O_CREAT) and rename() vs `cacheFileName` /
+                       `tmpFileName` (black box through response_start)
+  zs(h_deflate)        trace validation of the stream assembly: deflate(), pread() on file chunks and the hand-over
+                       of the output buffer are interposed; pass 1 records what the real zlib answered, pass 2
+                       replays the answers in Model/DeflateStream.lean and compares every call's arguments, every
+                       append and read, for random chunk layouts (memory / whole file / file at offset / prefix of a
+                       longer file), output buffer sizes 1..128 KiB, scripted short reads, and 2 MiB+1 file chunks
   e2e                  the real lighttpd (ASan+UBSan) with mod_deflate: file sizes around the internal
                        buffer limits incl. incompressible data, Accept-Encoding forms, min/max size and
                        MIME settings, revalidation, modify-between-requests histories (model: `run`),
@@ -26,31 +33,45 @@ from concurrent.futures import ThreadPoolExecutor
 from .. import common as C
 
 MANIFEST = dict(
-    text="Lean 4 theorems over an executable model of mod_deflate: Accept-Encoding scanner and "
-         "allowed-encodings selection (chosen coding is listed by the client with a non-zero weight and "
-         "allowed by the configuration), response_start header adjustments (Vary, distinct ETag, "
-         "Content-Encoding, 304 on revalidation), and the on-disk cache as a protocol over a file-system "
-         "model with arbitrary source-modification histories and writer fault/crash schedules (every cache "
-         "hit and every published file is the complete coded form of the current version; temporary files "
-         "are never served). Tied to the C by in-process differentials of the real static functions with "
-         "interposed write/rename/open/getpid, and by an end-to-end stream against the real server with "
-         "bodies decoded by Python zlib and strace fault injection",
-    note="partial: zlib is external (the coded form is a parameter `compress`; that it decodes to the "
-         "identity body is validated with an independent decoder on every coded body, not proved), and the "
-         "stream assembly over memory/file chunks (deflate_compress_response, stream_deflate_*) is validated "
-         "(body layouts, sizes around 64 KiB / 128 KiB / 2 MiB buffers) rather than modelled. Assumptions: the "
-         "validator (ETag = 32-bit hash of inode,size,mtime-ns) distinguishes source versions; reading the "
-         "source is atomic w.r.t. its stat (stat cache validity: 1 s); zlib output is a function of (content, "
-         "coding). trusted: Lean kernel, hand-written model validated by the h_deflate and e2e "
-         "correspondences, strace fault injection",
+    text="Lean 4 theorems over an executable model of mod_deflate. Proved: (negotiation) for every RFC 9110 "
+         "Accept-Encoding value (token list with weights, any optional white space) the chosen coding is allowed by "
+         "deflate.allowed-encodings and explicitly listed with non-zero weight, none is chosen only if no allowed "
+         "coding is so listed, first allowed entry wins; for arbitrary bytes the label occurs literally with a weight "
+         "that is not zero. (headers) if any variant of a response is coded then EVERY variant - the identity one "
+         "included - carries Vary: Accept-Encoding; the coded ETag is a well-formed entity-tag distinct from the "
+         "identity one and per coding; revalidation with it gives 304 (412 unsafe methods). (stream assembly) for "
+         "every chunk layout, buffer size, read split and schedule of zlib answers the codec is handed exactly the "
+         "identity body and the client / cache file gets exactly what the codec wrote. (cache) for all histories of "
+         "source changes, requests, evictions, seconds passing and all writer fault / crash schedules incl. pid reuse, "
+         "every served body and every published file is the complete coded form of the current / named version; "
+         "temporary and published names are disjoint and faithful to the abstract keys. PARTIAL: that zlib's output "
+         "is the RFC 1950/1952 container of a raw DEFLATE stream of what it consumed, and that raw DEFLATE "
+         "round-trips, are hypotheses (c19_body_decodes_partial, c19_served_decodes_partial), validated by decoding "
+         "every coded body with Python zlib. MIME / size / status gates, Content-Encoding / Content-Length "
+         "handling and cache eligibility are correspondence-only (rs stream).",
+    note="partial: zlib is external. Every theorem is over the hand-written model; the model is tied to the C by "
+         "in-process differentials of the real static functions (ae, rs, rs-revalidate, cache with interposed "
+         "write/rename/open/getpid and process death by longjmp, names, zs = trace validation of every deflate() / "
+         "pread() / append call) and an end-to-end stream (matrix, modification histories, strace faults). "
+         "Assumptions: the validator (ETag = 32-bit linear hash of inode,size,mtime-ns) distinguishes source versions; "
+         "the coded form is a function of (content, coding) for as long as the cache directory is in use (same zlib, "
+         "level, params; the temporary file is opened without O_TRUNC); reading the source is atomic w.r.t. its "
+         "stat and the source changes at least a second after the last request (stat cache validity); write() on a "
+         "regular file never returns 0 for a non-empty buffer; configuration trusted (one coding per "
+         "allowed-encodings string). Not covered: max-loadavg, brotli/zstd/bzip2/libdeflate paths (not compiled), "
+         "HTTP/2, TLS, HEAD / identity-304 responses carry no Vary (as-is), identity;q=0 is not honoured (as-is).",
     tech="Lean 4 proof over hand-written model + differential correspondence (in-process C harness with "
-         "scripted syscall faults) + end-to-end correspondence (real server, strace injection)",
+         "scripted syscall faults and zlib trace validation) + end-to-end correspondence (real server, strace "
+         "injection)",
     ref="6/C19")
 
 LEVEL = "proof"
-EXPLANATION = ("claimed partial: proof for negotiation, header adjustments and the cache protocol over the model; "
-               "zlib (the coded form decodes to its input) and the chunk-wise stream assembly are validated with an "
-               "independent decoder on every coded body (in-process and end-to-end), not proved")
+EXPLANATION = ("claimed partial: proof for negotiation (against an RFC 9110 list specification), Vary on all variants, "
+               "ETag, revalidation, stream assembly around the codec and the cache protocol over the model; the codec "
+               "itself (zlib output = RFC container of a raw DEFLATE stream that round-trips) is a hypothesis of the "
+               "_partial theorems, validated with an independent decoder on every coded body (in-process and "
+               "end-to-end); MIME/size/status gates and Content-Encoding/Content-Length handling are "
+               "correspondence-only")
 
 # D26 (fixed in /repo 2a3a422): mod_deflate_choose_encoding() ignored the weight parameter, so
 # "Accept-Encoding: gzip;q=0, deflate" was answered with Content-Encoding: gzip (RFC 9110 12.4.2: weight 0
@@ -173,6 +194,8 @@ LABELS = (b"gzip", b"x-gzip", b"deflate")
 def gen_body(kind, seed, n):
     """same generator as gen_body() of h_deflate.c"""
     x = seed & 0xffffffff
+    if kind == "c":
+        return bytes([97 + seed % 26]) * n
     out = bytearray(n)
     if kind == "t":
         for i in range(n):
@@ -283,6 +306,8 @@ def canon(out):
     if not out or out in ("bad-op", "<crash>", "none", "gzip", "x-gzip", "deflate"):
         return out
     t = out.split(" ")
+    if t[-1].startswith("zraw:"):
+        return canon_zs(out)
     if t[-1].startswith("raw:") and len(t) == 7:
         _, g, ln, hx = t[-1].split(":", 3)
         bad = hx.endswith(":BADQUEUE")
@@ -492,7 +517,7 @@ def gen_rs(ctx):
                                  rng.choice(AES[:5]) if rng.random() < 0.8 else rng.choice(AES[9:14]),
                                  gen_inm(rng, et), rng.choice([200] * 12 + [201, 206, 299, 300, 404]), 9,
                                  rng.choice(CTYPES[:3]), et, rng.choice(VARYS[:3] + VARYS), rng.choice(CCS[:3] + CCS),
-                                 rng.choice("mffff2pt"), rng.choice("tttr") + str(rng.randint(0, 999)),
+                                 rng.choice("mffff2ptP"), rng.choice("tttr") + str(rng.randint(0, 999)),
                                  rng.choice(LENS[3:])))
             continue
         al = rng.choice(ALLOWED[:6]) if rng.random() < 0.9 else rng.choice(ALLOWED)
@@ -509,7 +534,7 @@ def gen_rs(ctx):
         inm = gen_inm(rng, et)
         va = rng.choice(VARYS)
         cc = rng.choice(CCS)
-        bk = rng.choice("mmm2ffffpt")
+        bk = rng.choice("mmm2ffffptP")
         g = rng.choice("tttr") + str(rng.randint(0, 999))
         ln = rng.choice(LENS)
         if i % 400 == 7:
@@ -525,6 +550,24 @@ def parse_rs_line(line):
     return dict(al=t[1], mimes=None if t[2] == "~" else [C.unhx(x) for x in t[2].split(",")], mn=int(t[3]),
                 mx=int(t[4]), cd=int(t[5]), me=int(t[6]), ae=o(t[7]), inm=o(t[8]), st=int(t[9]), fl=int(t[10]),
                 ct=o(t[11]), et=o(t[12]), va=o(t[13]), cc=o(t[14]), bk=t[15], g=t[16], ln=int(t[17]))
+
+
+def rs_compressible(c, any_coding=False):
+    """independent reading of the configuration: this response is coded for a client that accepts an
+    allowed coding (everything except the request's Accept-Encoding / If-None-Match); any_coding:
+    disregard that deflate.allowed-encodings may name no coding this build supports"""
+    if not (c["fl"] & 1) or (c["fl"] & 6) or c["me"] == 1:
+        return False
+    if c["st"] < 200 or c["st"] in (204, 205, 304):
+        return False
+    if not c["mimes"] or not (any_coding or allowed_base_codings(c["al"])):
+        return False
+    if c["ct"] is None:
+        if c["mimes"][0] != b"":
+            return False
+    elif not any(c["ct"].startswith(m_) for m_ in c["mimes"]):
+        return False
+    return c["ln"] > c["mn"] and not (c["mx"] and c["ln"] > c["mx"] * 1024)
 
 
 def oracle_rs(line, out):
@@ -574,6 +617,12 @@ def oracle_rs(line, out):
             return "response_start: Content-Encoding on identity body"
         if etag != c["et"] and not (c["et"] == b"" and etag is None):
             return "response_start: ETag changed on identity body"
+        if rs_compressible(c):
+            # some Accept-Encoding makes this very response coded: it is subject to negotiation
+            if vary is None or not has_token(vary, b"Accept-Encoding"):
+                return "response_start: identity variant of a compressible response without Vary: Accept-Encoding"
+        elif vary != c["va"] and not rs_compressible(c, any_coding=True):
+            return "response_start: Vary changed on a response that is never coded"
     elif v == "nm":
         if int(status) != 304 or c["inm"] is None or not c["et"]:
             return "response_start: 304 without matching If-None-Match"
@@ -662,6 +711,17 @@ def gen_events(rng, fatal):
     return ev
 
 
+def with_ticks(rng, ops, p=0.8):
+    """a second passes before most requests / evictions; the rest happen within the same second as the op
+    before (stat cache entries of published files are then trusted without stat())"""
+    out = []
+    for op in ops:
+        if not op.startswith("M:") and rng.random() < p:
+            out.append("K")
+        out.append(op)
+    return out
+
+
 def gen_history(rng, collide):
     nfiles = rng.choice([1, 1, 2])
     cur = {}            # file -> (v, content)
@@ -724,7 +784,7 @@ def gen_cache(ctx):
     n = 12000 if ctx.quick else 120000
     for i in range(n):
         collide = (i % 10 == 9)
-        lines.append(("cache " if not collide else "cache ") + " ".join(gen_history(rng, collide)))
+        lines.append("cache " + " ".join(with_ticks(rng, gen_history(rng, collide), 0.8 if i % 4 else 0.3)))
     # directed: crash at every early write position / every rename outcome, then hit or rebuild
     c1, c2 = HX(b"first version of the file "), HX(b"second version, longer than v1")
     for lab in ("gzip", "deflate", "x-gzip"):
@@ -739,6 +799,12 @@ def gen_cache(ctx):
                 lines.append("cache M:0:1:%s R:0:%s:7:c1o1wr%s R:0:%s:%d:c1o1wk0k1k2ro M:0:2:%s R:0:%s:%d:c1o1wr%s "
                              "R:0:%s:7:c1o1wro M:0:1:%s R:0:%s:7:c1o1wro"
                              % (c1, lab, ren, lab, pid2, c2, lab, pid2, ren, lab, c1, lab))
+    # a published file evicted within the second in which the same process served it: still served (from the open
+    # descriptor), nothing re-published; after a second, or from another process: rebuilt
+    for lab in ("gzip", "deflate"):
+        for tail in ("E:F:0:1.26:%s R:0:%s:7:c1o1wro K R:0:%s:7:c1o1wro", "E:F:0:1.26:%s R:0:%s:9:c1o1wro R:0:%s:7:c1o1wro",
+                     "K E:F:0:1.26:%s R:0:%s:7:c1o1wro R:0:%s:7:c1o1wro", "E:F:0:1.26:%s R:0:%s:7:c1o1wxro R:0:%s:7:c1o1wro"):
+            lines.append(("cache M:0:1:%s R:0:%s:7:c1o1wro K R:0:%s:7:c1o1wro " % (c1, lab, lab)) + tail % (lab, lab, lab))
     return lines
 
 
@@ -824,21 +890,29 @@ def classify_cache(line, out):
 # =====================================================================================
 # stream 4: cache file names (byte level)
 # =====================================================================================
+def _safe_path(b):
+    """no '..' path component (the harness creates the directories below its scratch cache dir)"""
+    return b".." not in b.split(b"/")
+
+
 def gen_names(ctx):
     rng = ctx.rng
     lines = []
-    dirs = [b"/c", b"/c/", b"", b"/", b"/var/cache/lighttpd/compress", b"c//"]
+    dirs = [b"", b"/", b"/x", b"/x/", b"/var/cache/lighttpd/compress", b"/c//"]
     paths = [b"/srv/www/a.txt", b"srv/a", b"/", b"", b"//x", b"/a-1-gzip", b"/a.txt-12-gzip.4711", b"/x.99"]
-    etags = [b'"12"', b'""', b'"1-gzip"', b'"12-gzip"', b'"12-x-gzip"', b'"4711-deflate"', b'W/"ab-gzip"', b'"a', b'ab']
+    etags = [b'"12"', b'"1"', b'"1-gzip"', b'"12-gzip"', b'"4711-deflate"', b'W/"ab"', b'"ab', b'abc', b'"1802567732"']
     for d in dirs:
         for p_ in paths:
             for e in etags:
-                lines.append("name %s %s %s %d" % (HX(d), HX(p_), HX(e), rng.choice([0, 1, 9, 10, 4711, 99999, 4194304])))
+                lines.append("name %s %s %s %s %d" % (HX(d), HX(p_), HX(e), rng.choice(LABELS).decode(),
+                                                      rng.choice([0, 1, 9, 10, 4711, 99999, 4194304])))
     for _ in range(3000 if ctx.quick else 30000):
         d = b"/" + bytes(rng.choice(b"abc/-.0") for _ in range(rng.randint(0, 6)))
         p_ = bytes(rng.choice(b"abc/-.019") for _ in range(rng.randint(0, 10)))
-        e = b'"' + bytes(rng.choice(b"0123456789") for _ in range(rng.randint(1, 10))) + b"-" + rng.choice(LABELS) + b'"'
-        lines.append("name %s %s %s %d" % (HX(d), HX(p_), HX(e), rng.randint(0, 5000000)))
+        if not _safe_path(d) or not _safe_path(p_):
+            continue
+        e = b'"' + bytes(rng.choice(b"0123456789") for _ in range(rng.randint(1, 10))) + b'"'
+        lines.append("name %s %s %s %s %d" % (HX(d), HX(p_), HX(e), rng.choice(LABELS).decode(), rng.randint(0, 5000000)))
     return lines
 
 
@@ -848,14 +922,109 @@ def oracle_names(line, out):
     t = line.split(" ")
     o = out.split(" ")
     if len(o) != 2:
-        return "malformed observation"
+        return "cacheable response was not written to the cache (%s)" % out[:40]
     fn, tmp = C.unhx(o[0]), C.unhx(o[1])
-    etag = C.unhx(t[3])
-    if not fn.endswith(b"-" + etag[1:-1]):
-        return "cache file name does not end in the entity tag"
+    etag, label = C.unhx(t[3]), t[4].encode()
+    if not fn.endswith(b"-" + etag[1:-1] + b"-" + label):
+        return "cache file name does not end in the entity tag and the coding"
+    if C.unhx(t[2]).strip(b"/") and C.unhx(t[2]).strip(b"/") not in fn:
+        return "cache file name does not contain the physical path"
     if tmp == fn or not tmp.startswith(fn + b".") or not tmp[len(fn) + 1:].isdigit():
         return "temporary cache file name is not <name>.<pid>"
     return None
+
+
+# =====================================================================================
+# stream 5: stream assembly around zlib (trace validation, two passes)
+# =====================================================================================
+def gen_zs(ctx):
+    rng = ctx.rng
+    lines = []
+    n = 4000 if ctx.quick else 40000
+    for i in range(n):
+        k = rng.choice([1, 1, 2, 3, 5])
+        layout = ",".join(rng.choice("mmffpPo") + str(rng.choice([1, 2, 7, 30, 64, 65, 200, 1000, 5000]))
+                          for _ in range(k))
+        cap = rng.choice([1, 2, 7, 16, 64, 65, 1000, 65536, 131072])
+        rsz = "-" if rng.random() < 0.5 else ",".join(str(rng.choice([0, 1, 6, 63, 999])) for _ in range(rng.randint(1, 6)))
+        lines.append("zs %s %d %s %s%d %s ?" % (rng.choice(["gzip", "deflate", "x-gzip"]), cap, layout,
+                                              rng.choice("ttr"), rng.randint(0, 999), rsz))
+    # the 2 MiB read block of mod_deflate_file_chunk_no_mmap and the default 128 KiB output buffer
+    big = ["f2097151", "f2097152", "f2097153", "p2097153", "P2097153", "o2097200", "m10,f4194305,m5", "P4194304,f70"]
+    for lay in (big[2:5] if ctx.quick else big):
+        lines.append("zs gzip 131072 %s c%d - ?" % (lay, rng.randint(0, 99)))
+    if not ctx.quick:
+        lines.append("zs gzip 131072 f2097153 t5 - ?")
+    lines.append("zs deflate 131072 f300000 r7 - ?")
+    return lines
+
+
+def zs_second_pass(lines, outs):
+    """put the zlib answers recorded in the first pass into the lines (the model replays them)"""
+    res = []
+    for l, o in zip(lines, outs):
+        t = l.split(" ")
+        ans = [x.split(">")[1] for x in o.split(" ") if x.startswith("D") and ">" in x]
+        t[6] = ",".join(ans) if ans else "-"
+        res.append(" ".join(t))
+    return res
+
+
+def canon_zs(out):
+    """`... zraw:<label>:<gen>:<total>:<hex>` -> `... sink:<len>:dec|BAD(why)` (decoded with Python zlib and
+    compared with the generated identity body); the model prints `sink:<len>:dec`"""
+    t = out.split(" ")
+    if not t or not t[-1].startswith("zraw:"):
+        return out
+    _, lab, g, ln, hx = t[-1].split(":", 4)
+    if t[0] != "ok":
+        return t[0]
+    if hx.endswith(":BADQUEUE"):
+        return " ".join(t[:-1] + ["sink:?:BAD(queue)"])
+    raw = C.unhx(hx)
+    dec, why = decode(lab, raw)
+    ok = dec == gen_body(g[0], int(g[1:]), int(ln))
+    return " ".join(t[:-1] + ["sink:%d:%s" % (len(raw), "dec" if ok else "BAD(%s)" % (why or "differs"))])
+
+
+def oracle_zs(line, out):
+    """the body decodes with the coding to the generated identity body"""
+    if out in ("bad-op", "<crash>", "err"):
+        return None
+    last = out.split(" ")[-1]
+    if not last.startswith("sink:"):
+        return "stream assembly: malformed observation"
+    v = last.split(":", 2)[2]
+    if v != "dec":
+        return "stream assembly: body does not decode to the identity body (%s)" % v
+    return None
+
+
+def classify_zs(line, out):
+    t = line.split(" ")
+    kinds = "".join(sorted(set(x[0] for x in t[3].split(","))))
+    o = out.split(" ")
+    nd = sum(1 for x in o if x.startswith("D"))
+    na = sum(1 for x in o if x.startswith("A"))
+    return "zs:%s:cap%s:%s:reads%d:calls%d:appends%d:%s" % (t[1], t[2], kinds, t[5] != "-", min(nd, 6), min(na, 4), o[0])
+
+
+def robust_lines(cmd, lines):
+    """like C.parallel_lines, but a crashing line only costs its own output ("<crash>")"""
+    outs, rc, err = C.parallel_lines(cmd, lines)
+    if rc == 0 and len(outs) == len(lines):
+        return outs
+    res = []
+    for i in range(0, len(lines), 100):
+        part = lines[i:i + 100]
+        o, rc, err = C.run_lines(cmd, part)
+        if rc == 0 and len(o) == len(part):
+            res += o
+            continue
+        for l in part:
+            o1, rc1, _ = C.run_lines(cmd, [l])
+            res.append(o1[0] if rc1 == 0 and len(o1) == 1 else "<crash>")
+    return res
 
 
 # =====================================================================================
@@ -1023,6 +1192,15 @@ def e2e_matrix_one(E, bd, cname, files, ae_forms, tier_q):
                     E.violation("identity", "identity request: wrong response (%s)" % (err or r0["status"]), rep)
                     continue
                 etag0 = e2e.hdr(r0, "etag")
+                # the identity variant (no Accept-Encoding at all) of a compressible resource is negotiated too
+                line0 = rs_line(al, mi, mn, mx, cd, 0, None, None, 200, 9, ctype, etag0, None, None, "f", "t0", len(data))
+                vary0 = e2e.hdr(r0, "vary")
+                if rs_compressible(parse_rs_line(line0)) and (vary0 is None or not has_token(vary0, b"Accept-Encoding")):
+                    E.violation("vary-identity", "identity variant of a compressible resource without Vary: "
+                                "Accept-Encoding (request without Accept-Encoding)", rep)
+                o0 = lambda v: "~" if v is None else HX(v)
+                E.case(line0, "pass 200 %s %s ~ id" % (o0(etag0), o0(vary0)), rep,
+                       "e2e:matrix:%s:%s:%s:identity:vary%d" % (cname, name[0], size_class(len(data)), vary0 is not None))
                 coded = {}
                 reqs = [(b"GET", b"1.1", ae) for ae in ae_forms] + [(b"GET", b"1.0", b"gzip"), (b"HEAD", b"1.1", b"gzip")]
                 if cd:
@@ -1067,6 +1245,10 @@ def e2e_matrix_one(E, bd, cname, files, ae_forms, tier_q):
                         body = "id" if (r["body"] == data or method == b"HEAD") else "BAD"
                         if body == "BAD":
                             E.violation("identity-body", "identity response body differs from the file", rep)
+                        if method != b"HEAD" and rs_compressible(parse_rs_line(line)) and \
+                                (vary is None or not has_token(vary, b"Accept-Encoding")):
+                            E.violation("vary-identity", "identity variant of a compressible resource without Vary: "
+                                        "Accept-Encoding", rep)
                     obs = "%s 200 %s %s %s %s" % (verdict, o(etag), o(vary), o(ce), body)
                     E.case(line, obs, rep, "e2e:matrix:%s:%s:%s:%s:%s" % (cname, name[0], size_class(len(data)),
                                                                            method.decode() + ver.decode(), verdict))
@@ -1195,6 +1377,8 @@ def e2e_history_batch(E, bd, histories, settle=0.0):
                         label = op[1]
                         r, err = h1_get(srv.port, path, ae=label.encode())
                         rep = dict(rep0, history=[(o[0], o[1]) if o[0] == "R" else (o[0], o[1], len(o[2])) for o in hist])
+                        ops.append("K")
+                        obs.append("q")
                         ops.append("R:0:%s:1:c1o1wro" % label)
                         if err or r["status"] != 200 or e2e.hdr(r, "content-encoding") != label.encode():
                             E.violation("history-response", "history: unexpected response (%s)" %
@@ -1409,8 +1593,9 @@ def e2e_fault_one(E, bd, fname, label, seed):
             if srv2 is not srv:
                 srv2.stop()
         pid2 = 1 if alive else 2
-        line = "cache M:0:1:%s R:0:%s:1:c1o1w%sr%s R:0:%s:%d:c1o1wro R:0:%s:%d:c1o1wro" % (
+        line = "cache M:0:1:%s R:0:%s:1:c1o1w%sr%s K R:0:%s:%d:c1o1wro K R:0:%s:%d:c1o1wro" % (
             HX(data), label, wev, rev, label, pid2, label, pid2)
+        obs = obs[:2] + ["q", obs[2], "q", obs[3]] if len(obs) == 4 else obs
         E.case(line, " ".join(obs + ["|"] + sorted(lst)), rep0, "e2e:fault:%s:%s:%s" % (fname, label, obs[1][0]))
         with E.lock:
             E.ctx.faults_fired += 1
@@ -1531,6 +1716,10 @@ def run_inproc(ctx):
     ctx.differential("cache(h_deflate)", [exe], "deflate", gen_cache(ctx), oracle_cache, classify_cache, canon=canon)
     ctx.differential("names(h_deflate)", [exe], "deflate", gen_names(ctx), oracle_names,
                      lambda l, o: "name:" + ("ok" if " " in o else o), canon=canon)
+    # stream assembly: first pass records what the real zlib answered, second pass replays it in the model
+    zs1 = gen_zs(ctx)
+    zs2 = zs_second_pass(zs1, robust_lines([exe], zs1))
+    ctx.differential("zs(h_deflate)", [exe], "deflate", zs2, oracle_zs, classify_zs, canon=canon_zs)
 
 
 def run(ctx):
@@ -1545,13 +1734,17 @@ def run(ctx):
         "the validator (ETag = hash of inode, size, mtime incl. nanoseconds) distinguishes the versions of a "
         "source file; histories with two versions sharing a validator are compared with the model only",
         "reading the source file is atomic with respect to its stat (no concurrent writer during compression)",
-        "coded form is a function of (content, coding): fixed deflate.compression-level / deflate.params",
-        "HTTP/2 and TLS are not exercised; deflate.max-loadavg = 0"]
+        "coded form is a function of (content, coding) while the cache directory is in use: same zlib, fixed "
+        "deflate.compression-level / deflate.params (the temporary file is opened without O_TRUNC)",
+        "the source file changes at least one second after the last request (stat cache validity); write() on a "
+        "regular file never returns 0 for a non-empty buffer; configuration is trusted",
+        "HTTP/2 and TLS are not exercised; deflate.max-loadavg = 0; HEAD and identity-304 responses carry no Vary "
+        "and identity;q=0 is not honoured (modelled as-is)"]
 
 
 def replay_line(ctx, rep):
     line = rep.get("input")
-    if rep.get("scenario") or not isinstance(line, str) or line.split(" ")[0] not in ("ae", "rs", "cache", "name"):
+    if rep.get("scenario") or not isinstance(line, str) or line.split(" ")[0] not in ("ae", "rs", "cache", "name", "zs"):
         return replay_e2e(ctx, rep)
     exe, err = C.build_harness("h_deflate")
     o, rc, e = C.run_lines([exe], [line])
@@ -1559,8 +1752,9 @@ def replay_line(ctx, rep):
     print("input:", line[:2000])
     print("impl :", [canon(x) for x in o][:1], rc)
     print("model:", [canon(x) for x in m][:1])
-    orc = {"ae": oracle_ae, "rs": oracle_rs, "cache": oracle_cache, "name": oracle_names}[line.split(" ")[0]]
-    v = orc(line, canon(o[0])) if o else "crash"
+    orc = {"ae": oracle_ae, "rs": oracle_rs, "cache": oracle_cache, "name": oracle_names,
+           "zs": oracle_zs}[line.split(" ")[0]]
+    v = orc(line, canon(o[0])) if (o and rc == 0) else "crash / sanitizer report"
     if not v and line.startswith("rs ") and rep.get("correspondence", "").startswith("rs-revalidate"):
         v = oracle_reval(line, canon(o[0]))
     print("oracle:", v)
